@@ -1380,6 +1380,11 @@ func (c *Conn) prepareStatement(ctx context.Context, stmt string, tracer Tracer)
 
 func marshalQueryValue(typ TypeInfo, value interface{}, dst *queryValues) error {
 	if named, ok := value.(*namedValue); ok {
+		if typ.Version() < protoVersion3 {
+			// names for values came with protocol 3: before it the values would go out by
+			// position, in call order, whatever markers their names refer to
+			return errors.New("gocql: named values are not supported by protocol versions below 3")
+		}
 		dst.name = named.name
 		value = named.value
 	}
